@@ -661,7 +661,7 @@ fn run_episode(drv: &mut dyn Drv, meta: &Meta, args: &RunArgs, episode: u64, rep
                 let src = ep.slots[slot].clone().unwrap();
                 let tvi = src.variant + 1;
                 let tv = &meta.variants[tvi];
-                let form = rng.below(4) as u8;
+                let form = if meta.has_returning_forms { rng.below(4) as u8 } else { rng.below(2) as u8 };
                 let ids: Vec<u64> = tv.plus.iter().map(|_| ep.fresh()).collect();
                 // returned removed fields are observed when they were written
                 let mut mask = 0u64;
